@@ -15,7 +15,8 @@ PROP = {
   "saml2_tophat.validate:valid_non_negative_integer",
   "saml2_tophat.validate:valid_positive_integer",
   "saml2_tophat.validate:valid_unsigned_byte",
-  "saml2_tophat.validate:valid_boolean"
+  "saml2_tophat.validate:valid_boolean",
+  "saml2_tophat.validate:valid_date_time"
  ],
  "function_generator": [
   "contracts.c_validate_classes",
@@ -28,7 +29,7 @@ PROP = {
   "schema_validation"
  ],
  "level": "other",
- "explanation": "validate.valid_instance is verified deductively once per schema class for a set of small central classes (the class a constant, so the table-driven loops are unrolled exactly; the postcondition is generated from what the class declares). Generation cost grows steeply with the number of members, so larger classes are verified in the thorough tier only and the remaining classes are covered by (a) the exhaustive validator-table obligation over all 1156 classes and (b) a BOUNDED native sweep (every class: a valid instance is accepted, each declared constraint violated in isolation is rejected), labelled bounded and not counted as proved.",
+ "explanation": "validate.valid_instance is verified deductively once per schema class for a set of small central classes (the class a constant, so the table-driven loops are unrolled exactly; the postcondition is generated from what the class declares). Generation cost grows steeply with the number of members, so larger classes are verified in the thorough tier only and the remaining classes are covered by (a) the exhaustive validator-table obligation over all 1156 classes and (b) a BOUNDED native sweep (every class: a valid instance is accepted, each declared constraint violated in isolation is rejected), labelled bounded and not counted as proved. valid_date_time is verified against the meaning of the accepted timestamp spellings (it accepts exactly an empty value or a text time_util.str_to_time parses; str_to_time carries the post 'only parsable text is accepted').",
  "not_decided": [
   "deductive per-class proofs for the classes outside the quick / thorough lists",
   "AttributeValue (typed text, __setattr__ override) is outside the subset",
